@@ -1,4 +1,5 @@
 import ApolloModel.Proofs.ParserLossless
+import ApolloModel.Proofs.ParserType5
 /-
 C05 — Syntax acceptance matches the GraphQL grammar.
 
@@ -6,7 +7,8 @@ The decision procedure for this property is differential: the parser model of C0
 code by correspondence stream P) and, as the reference parser, an independent recogniser of the
 October-2021 document grammar (harness/src/gramspec.rs over harness/src/lexspec.rs) evaluated on the
 implementation: error-free ⟺ accepted, and equal (kind, name) lists of top-level definitions.
-PARTIAL: there is no Lean theorem relating the parser model to a grammar specification yet; what is
+PARTIAL: the only Lean theorem relating the parser model to the grammar is `type_accepted_is_in_grammar`
+(the `Type` production, entry point `parse_type`); for documents what is
 machine-checked here are facts of the model that the acceptance argument rests on, and
 kernel-evaluated witnesses of the repaired defects and of the known finding.
 -/
@@ -39,5 +41,16 @@ example : errorFree "{a(x:{c:1 d})}".toList = false := by decide +kernel
 -- …and a comma between description and keyword is accepted
 example : errorFree "\"d\",type A".toList = true := by decide +kernel
 example : errorFree "{a ...F ...on T{b}}".toList = true := by decide +kernel
+
+/-- Grammar acceptance for the `Type` production (the one production with unbounded nesting that is proved so
+    far): what `parse_type` accepts without error is a sentence of `Type : NamedType | [Type] | Type!` —
+    its significant tokens are exactly the tokens `tTy t` of a type reference `t`, then the end of input.
+    (Same theorem as C07 `type_accept_sound`, read as "accepted ⊆ grammar"; the converse inclusion is
+    `C07.type_accept_complete_statement`, not proved.) -/
+theorem type_accepted_is_in_grammar (rl : Nat) (src : Parse.Str) (root : Elem)
+    (h : (parse .type none rl src).outcome = .tree root) (herr : (parse .type none rl src).errors = []) :
+    ∃ (t : Ast.Ty) (ts : List Tok) (e : Tok),
+      sig (srcToks src) = ts ++ [e] ∧ e.kind = .eof ∧ ts.map astOf = (Ast.tTy t).map some :=
+  (Parse.parseType_sound rl src root h herr).2
 
 end Apollo.C05
